@@ -85,20 +85,13 @@ Definition result_matches (x : result) (o : obs) : bool :=
          end
   end.
 
-Fixpoint any_variant (f : variant -> bool) (l : list variant) : bool :=
-  match l with
-  | [] => false
-  | v :: r => if f v then true else any_variant f r
-  end.
-
 Definition check_case (c : case) : bool :=
   match c with
   | CaseEmbed p v4 valid emb ext =>
       Bool.eqb (validate_prefix p) valid &&
-      (if valid then list_eqb (embed p v4) emb
-                     && any_variant (fun v => opt_eqb list_eqb (extract v p emb) ext) all_variants
+      (if valid then list_eqb (embed p v4) emb && opt_eqb list_eqb (extract cur p emb) ext
        else true)
-  | CaseExtract p addr res => any_variant (fun v => opt_eqb list_eqb (extract v p addr) res) all_variants
+  | CaseExtract p addr res => opt_eqb list_eqb (extract cur p addr) res
   | CaseArpa name res => opt_eqb list_eqb (parse_ip6_arpa name) res
   | CaseInAddr ip res => list_eqb (in_addr_arpa ip) res
   | CaseContains n ip res => Bool.eqb (net_contains n ip) res
@@ -107,8 +100,7 @@ Definition check_case (c : case) : bool :=
       Bool.eqb (is_dnssec_failure (mk_msg false 1 rcode false (match code with Some c => Some [c] | None => None end) [] [])) res
   | CaseEdeConst name code => opt_eqb N.eqb (ede_code name) (Some code)
   | CaseServe cf q down work al wf o =>
-      (* the tree as it is, or the tree with hunks of fix.patch applied *)
-      any_variant (fun v => result_matches (serve v cf q down work al) o) all_variants
+      result_matches (serve cur cf q down work al) o
   end.
 
 (* ---------------- specification oracle ---------------- *)
